@@ -16,6 +16,7 @@ import (
 	"github.com/veesix-networks/osvbng/pkg/component"
 	"github.com/veesix-networks/osvbng/pkg/events"
 	"github.com/veesix-networks/osvbng/pkg/ifmgr"
+	"github.com/veesix-networks/osvbng/pkg/opdb"
 	"github.com/veesix-networks/osvbng/pkg/ppp"
 	"github.com/veesix-networks/osvbng/pkg/southbound"
 	"github.com/veesix-networks/osvbng/pkg/svcgroup"
@@ -177,5 +178,5 @@ func (p *c12PPPoE) dumpStored(val []byte, kpd int) string {
 }
 
 func TestVerifC12(t *testing.T) {
-	c12Run(t, func(e *c12Env) c12Proto { return &c12PPPoE{e: e} }, "pppoe_session")
+	c12Run(t, func(e *c12Env) c12Proto { return &c12PPPoE{e: e} }, "pppoe_session", opdb.NamespacePPPoESessions)
 }
